@@ -130,3 +130,10 @@ package aspect_elimination
 //@   loop 3 invariant [failed] forall k int :: resultInsertIndex < k && k < len(*considered) ==> failedOn(result[k].Alternative, criteria, result[k].Evaluation.(AspectEliminationEvaluation).NotSatisfiedThreshold)
 //@   loop 3 invariant [order] forall k int, m int :: resultInsertIndex < k && k < m && m < len(*considered) ==>
 //@             result[k].Evaluation.(AspectEliminationEvaluation).ThresholdsIndex >= result[m].Evaluation.(AspectEliminationEvaluation).ThresholdsIndex
+
+// criteria from the heaviest weight down (ties in any order: the seeded generator breaks them)
+//@ func sortCriteria
+//@   property C12
+//@   fnparam generator ensures 0.0 <= result && result < 1.0
+//@   ensures [heaviest_first] forall i int, j int :: 0 <= i && i < j && j < len(result) ==> result[i].Weight >= result[j].Weight
+//@   ensures [the_methods_criteria] len(result) == len(dmp.Criteria) && forall k int :: 0 <= k && k < len(result) ==> exists j int :: 0 <= j && j < len(dmp.Criteria) && result[k].Criterion == dmp.Criteria[j] && result[k].Weight == params.Weights[dmp.Criteria[j].Id]
